@@ -171,3 +171,10 @@ def r5(rr, repo):
 def r6(rr, repo):
     from .c07 import r5 as c07r5
     c07r5(rr, repo)
+
+
+@rule('C06.R7', "a consumer (re)registers with each upstream separately: the 'new' handshake mark of request() is computed per source and does not leak from a source that has not answered yet to the "
+                "sources listed after it (an upstream that keeps being told 'new' only answers HELLO and never admits the consumer) (shares C05.R6)")
+def r7(rr, repo):
+    from .c04 import request_mark_obligations
+    request_mark_obligations(rr, repo, marks=('new',))
